@@ -1,7 +1,7 @@
 """C05 - fixed-size RDP: exact size, nested, greedy (history = the chain k = 0..n+1)."""
 import numpy as np
 
-from .. import gen, install, loops
+from .. import gen, install, loops, models
 from ..common import DISTANCES, EPS, ORDERS, distance, order, pick, shard_count
 
 META = {
@@ -32,6 +32,24 @@ def priority(mods, pts, a, b, distname, ordname):
     if ordname == 'area':
         return np.sum(dist(seg, seg[0], seg[-1]))
     return install.orig('linear_fit', 'linear_fit_residuals_points')(seg)
+
+
+def priority_model(seg, distname, ordname):
+    """(value, tolerance) of the ordering score from its definition (long double), or None when ill-conditioned."""
+    if ordname == 'segment':
+        return models.endpoint_line_cost(seg, 'rss')
+    if distname == 'perpendicular' and np.asarray(seg).dtype.kind in 'iu' and float(np.max(np.abs(seg))) > 1e8:
+        return None                                          # F-2: int64 products wrap inside the primitive
+    g = geo_dist(seg, distname)
+    if not np.all(np.isfinite(g)):
+        return None
+    base = float(np.hypot(*(np.asarray(seg[-1], float) - np.asarray(seg[0], float))))
+    sc = float(np.max(np.abs(seg))) + base
+    if ordname == 'triangle':
+        v = 0.5 * base * float(g.max())
+        return v, 1e-9 * v + 64 * EPS * sc * base
+    v = float(np.sum(g))
+    return v, 1e-9 * v + 64 * EPS * sc * len(g)
 
 
 def geo_dist(seg, kind):
@@ -77,6 +95,10 @@ def setup(ctx, mods):
 
 def cases(rng, tier, shard, nshards):
     total = META['quick_cases'] if tier == 'quick' else META['thorough_cases']
+    # long ranges (thousands of points) whose farthest point is a feature a few samples wide; the first members only
+    for _ in range(1 if tier == 'quick' else 4):
+        yield {'points': gen.long_spiky(rng), 'family': 'long-spiky', 'layout': 'C', 'distance': pick(rng, DISTANCES),
+               'order': pick(rng, ORDERS), 'kmax': int(rng.integers(8, 16))}
     for i in range(shard_count(total, shard, nshards)):
         r = rng.random()
         if tier == 'thorough' and r < 0.004:
@@ -115,7 +137,7 @@ def run_chain(ctx, mods, case, pts, dn, on):
     prev = None
     steps_competing = 0
     chain_ok = True
-    for k in range(0, n + 2):
+    for k in range(0, min(n + 2, case.get('kmax', n + 2))):
         ok, res = install.guarded(ctx, 'complete:rdp.rdp_fixed', rdp.rdp_fixed, pts, k, d, o)
         if not ok:
             chain_ok = False
@@ -157,6 +179,15 @@ def run_chain(ctx, mods, case, pts, dn, on):
                 if any(v != v for v in pr.values()):
                     ctx.ood('greedy', 'nan-priority')
                 else:
+                    for ab in cand[:3]:       # the shared ordering primitives against their definitions
+                        pm = priority_model(pts[ab[0]:ab[1] + 1], dn, on)
+                        if pm is None:
+                            ctx.ood('order-model', 'ill-conditioned')
+                            continue
+                        ctx.mx('order_model_err_over_tol', abs(pr[ab] - pm[0]) / (pm[1] + 1e-300))
+                        ctx.check(abs(pr[ab] - pm[0]) <= pm[1], 'order-model', f'primitive:order-model:{on}',
+                                  f'ordering score ({on}) of segment {list(ab)} is {pr[ab]!r}; its definition gives {pm[0]!r} (tol {pm[1]:.3g})',
+                                  k=k, segment=list(ab), distance=dn, order=on)
                     best = max(pr.values())
                     mine = pr[(a, b)]
                     ctx.check(mine >= best - 1e-12 * abs(best), 'greedy', 'greedy:not-max-priority',
